@@ -230,6 +230,33 @@ def spelling_records(atoms, n_bin):
             if a.symbol:
                 forms += [("decltype(root<%d>(%s))" % (k, a.symbol), X), ("decltype(au::%s(%s))" % (alias, a.symbol), X)]
             out.append(("root<%d>(%s)" % (k, a.name), forms, "q"))
+        # roots (and powers) of wrappers whose unit is already a power, a product, a quotient or a root: the exponent must be
+        # multiplied into the existing factors and simplified exactly as for the unit-type spelling
+        others = [b for b in lib_atoms if b is not a][:2]
+        for k, alias in ((2, "sqrt"), (3, "cbrt")):
+            ws = [("maker", a.maker, "au::%s" % alias, "au::root<%d>" % k), ("const", C(a), "au::%s" % alias, "root<%d>" % k)]
+            if a.symbol:
+                ws.append(("symbol", a.symbol, "au::%s" % alias, "root<%d>" % k))
+            inner = [("pow<%d>" % k, "au::pow<%d>(%%s)" % k, "decltype(au::root<%d>(au::pow<%d>(%s{})))" % (k, k, a.cpp)),
+                     ("pow<2>", "au::pow<2>(%s)", "decltype(au::root<%d>(au::pow<2>(%s{})))" % (k, a.cpp)),
+                     ("root<2>", "au::root<2>(%s)", "decltype(au::root<%d>(au::root<2>(%s{})))" % (k, a.cpp)),
+                     ("inverse", "au::pow<-1>(%s)", "decltype(au::root<%d>(au::pow<-1>(%s{})))" % (k, a.cpp))]
+            forms = []
+            for wn, w, al, rt in ws:
+                for iname, ifmt, X in inner:
+                    e = ifmt % w if wn == "maker" else ifmt.replace("au::pow", "pow").replace("au::root", "root") % w
+                    forms += [("decltype(%s(%s))" % (rt, e), X), ("decltype(%s(%s))" % (al, e), X)]
+            for b in others:
+                for op in ("*", "/"):
+                    X = "decltype(au::root<%d>(%s{} %s %s{}))" % (k, a.cpp, op, b.cpp)
+                    forms += [("decltype(au::root<%d>(%s %s %s))" % (k, a.maker, op, b.maker), X),
+                              ("decltype(root<%d>(%s %s %s))" % (k, C(a), op, C(b)), X),
+                              ("decltype(au::%s(%s %s %s))" % (alias, C(a), op, C(b)), X)]
+                    if a.symbol and b.symbol:
+                        forms += [("decltype(root<%d>(%s %s %s))" % (k, a.symbol, op, b.symbol), X),
+                                  ("decltype(au::%s(%s %s %s))" % (alias, a.symbol, op, b.symbol), X),
+                                  ("typename decltype(3.0 * au::%s(%s %s %s))::Unit" % (alias, a.symbol, op, b.symbol), X)]
+            out.append(("root<%d> of compound/powered wrappers of %s" % (k, a.name), forms, "q"))
         # scaling a wrapper by a magnitude (CanScaleByMagnitude, QuantityMaker / QuantityPointMaker operators)
         for mlab, M, _ in MAGS:
             Xm, Xd, Xi = ("decltype(%s{} * %s)" % (a.cpp, M), "decltype(%s{} / %s)" % (a.cpp, M), "decltype(au::pow<-1>(%s{}) * %s)" % (a.cpp, M))
